@@ -31,6 +31,24 @@ interpreter has become cyclic the harness records what a read of an unknown
 name and ls() do (both end, by the host's recursion limit) and abandons the
 branch: require / interpret would walk the cycle for ever.
 
+Round 3: three more graphs.  Session_dirs: two interpreters whose module paths
+name DIFFERENT directories (same module names, other contents), the second
+interpreter constructed by a command of the history (`new`), after the first
+has been used.  Session_nest: caller environments that have a parent of their
+own (outer <- inner <- leaf, kept by the caller, handed to both interpreters).
+Session_fails: defining statements that fail themselves (def / assignment /
+destructuring def / def class with a failing initialiser) and module loads that
+fail with something that is not an error of the language (a file that is not
+UTF-8, a directory in place of the file, a top level that exhausts the host's
+stack), alone and nested in a sound module; Session_pinnedhost (the stack is
+unwound for the language's error classes only) must give TLC a counterexample.
+For such a load the spec predicts the outcome class "fail": any failure is
+accepted (which exception it is, is C13's concern: drift), what is compared is
+that the repeat fails in the same way and that nothing is left behind.  The
+diagnostics that read private attributes of the implementation (modulestack,
+modules, map, parent) are guarded: when one is not there the diagnostic is
+dropped (drift diag:unavailable), the verdict does not depend on them.
+
 This module also hosts the code shared with C11 (harness/c11.py).
 """
 import gc
@@ -58,6 +76,8 @@ NPROC = 16
 CALL_TIMEOUT = 120      # seconds for one interpret call (they take microseconds)
 MODEL_BUNDLED = {"sys", "stat"}     # SessionOps.Bundled: bundled modules the spec knows
 ENV_OPS = {"envcall", "envfail", "envread"}
+FAILDEF_OPS = {"defbad", "assignbad", "destrbad", "classbad"}     # Session.FailDefOps
+NOT_UTF8 = 'def undec_a = "Gr\xfc\xdfe";\n'.encode("latin-1")       # a module saved as Latin-1
 
 
 class Abandon(Exception):
@@ -68,12 +88,23 @@ def _alarm(signum, frame):
     raise TimeoutError("interpret call did not return")
 
 
+def _interrupt(signum, frame):
+    raise KeyboardInterrupt()
+
+
 signal.signal(signal.SIGALRM, _alarm)
+# The user's Ctrl-C for a module load that does not end: delivered after
+# INTERRUPT_AFTER seconds of CPU time of this process (not wall time: whatever
+# the load of the machine the call is then inside the endless loop).
+signal.signal(signal.SIGVTALRM, _interrupt)
+INTERRUPT_AFTER = 0.01
 BUNDLED = None          # module ids preloaded in a fresh interpreter
 # The variable of a `for` loop aborted by an error stays bound in the pinned
 # code and the spec models that (DESIGN 5.3); the property does not demand it,
 # so a tree that cleans it up only drifts.
-SOFT_NAMES = {"i"}
+# Likewise the members of `def class P`: the pinned NodeClass evaluates the
+# member definitions in the enclosing scope, so P_m / P_get are bound there too.
+SOFT_NAMES = {"i", "P_m", "P_get"}
 
 
 # ------------------------------------------------------------------ sources
@@ -121,6 +152,13 @@ def module_source(m, rec):
         op = st["op"]
         if op == "def":
             out.append(f"def {st['n']} = 7;")
+        elif op == "def8":
+            out.append(f"def {st['n']} = 8;")
+        elif op == "deep":
+            out.append(f"def {m}_f(n) {m}_f(n + 1);")
+            out.append(f"{m}_f(0);")
+        elif op == "spin":
+            out.append("while TRUE do 1; end;")     # the harness interrupts it (Sessions.run)
         elif op == "req":
             out.append(require_src(st["id"], st["form"]) + ";")
         elif op == "rdr":
@@ -135,9 +173,34 @@ def module_source(m, rec):
 
 
 def materialise(fsdef, directory):
+    """Write the module files of fsdef into directory.  -> the module
+    directory of every interpreter: the path itself, or - when some
+    interpreters have a directory of their own (fsdef["alt"]) - a dict
+    {interpreter: path, "": path of the others}."""
+    raw = fsdef.get("raw") or {}
     for m, rec in fsdef["fs"].items():
-        with open(os.path.join(directory, m + ".ckl"), "w") as f:
-            f.write(module_source(m, rec))
+        path = os.path.join(directory, m + ".ckl")
+        if raw.get(m) == "dir":
+            os.mkdir(path)                      # a directory in place of the file
+        elif raw.get(m) == "bytes":
+            with open(path, "wb") as f:
+                f.write(NOT_UTF8)               # cannot be decoded as UTF-8
+        elif m in raw:
+            raise MachineryError("unknown kind of unreadable file " + str(raw[m]))
+        else:
+            with open(path, "w") as f:
+                f.write(module_source(m, rec))
+    alt = fsdef.get("alt") or {}
+    if not alt:
+        return directory
+    dirs = {"": directory}
+    for i, files in sorted(alt.items()):
+        dirs[i] = os.path.join(directory, "dir-of-" + i)
+        os.mkdir(dirs[i])
+        for m, rec in files.items():
+            with open(os.path.join(dirs[i], m + ".ckl"), "w") as f:
+                f.write(module_source(m, rec))
+    return dirs
 
 
 def cmd_source(c, binding=None):
@@ -174,7 +237,34 @@ def cmd_source(c, binding=None):
         return "def ev = 4; error 'boom'"
     if op == "envread":
         return n
+    if op == "defbad":
+        return f"def {n} = 2 * nosuch"
+    if op == "assignbad":
+        return f"{n} = 2 * nosuch"
+    if op == "destrbad":
+        return f"def [{n}, w] = [5, nosuch]"
+    if op == "defclass":
+        return f"def class {n} do def {n}_m = {v}; def {n}_get(self) self->{n}_m end"
+    if op == "classbad":
+        return f"def class {n} do def {n}_m = 2 * nosuch; def {n}_get(self) 0 end"
+    if op == "new":
+        return "<the host constructs this interpreter> def secret = 1"
     raise MachineryError("unknown command " + op)
+
+
+def half_defined(path):
+    """(interpreter, name) pairs that a failed defining statement of the
+    history would have defined.  A tree on which such a name becomes visible
+    only drifts (state at the point of failure, DESIGN 5.3); that an EARLIER
+    definition of the name stays what it was is compared as a value."""
+    soft = set()
+    for p in path:
+        c = p[0]
+        if c["op"] in FAILDEF_OPS:
+            soft.add((c["i"], c["n"]))
+            if c["op"] == "destrbad":
+                soft.add((c["i"], "w"))
+    return soft
 
 
 def cmd_label(c, binding=None):
@@ -187,31 +277,75 @@ class Sessions:
     """The real interpreters of one history, configured as DESIGN 5.4 says:
     module path and the load log live in the base environment."""
 
-    def __init__(self, interps, moddir=None):
-        global BUNDLED
+    def __init__(self, interps, moddir=None, late=()):
+        """late: interpreters that a command of the history constructs (`new`);
+        the others exist before the first command."""
+        self.interps = list(interps)
         self.it = {}
+        self.child = {}
+        self.moddir = None
+        self.base_names = set()
         for i in interps:
-            it = Interpreter(True, False)
-            if BUNDLED is None:
-                BUNDLED = set(it.base_environment.modules.keys())
-            self.it[i] = it
+            if i not in late:
+                self.construct(i)
         # caller environments: one the caller keeps (and passes to every
-        # interpreter), one child of each session
+        # interpreter), one child of each session, and a chain of the caller's
+        # own: outer (holds the host's name ov) <- inner <- leaf
         self.kept = get_none_environment()
-        self.child = {i: it.environment.newEnv() for i, it in self.it.items()}
+        self.outer = get_none_environment()
+        self.outer.put("ov", V.ValueInt(5))
+        self.inner = self.outer.newEnv()
+        self.leaf = self.inner.newEnv()
         if moddir is not None:
             self.configure(moddir)
 
+    def construct(self, i):
+        global BUNDLED
+        it = Interpreter(True, False)
+        if BUNDLED is None:
+            # (module ids preloaded in a fresh interpreter; used by diagnostics only)
+            BUNDLED = set(getattr(it.base_environment, "modules", {}).keys())
+        self.it[i] = it
+        self.child[i] = it.environment.newEnv()
+        return it
+
+    def dir_of(self, i):
+        if isinstance(self.moddir, dict):
+            return self.moddir.get(i, self.moddir[""])
+        return self.moddir
+
+    def setup(self, i):
+        it = self.it[i]
+        it.base_environment.put("checkerlang_module_path",
+                                V.ValueList().addItem(V.ValueString(self.dir_of(i))))
+        it.base_environment.put("loadlog", V.ValueList())
+        if not self.base_names:
+            self.base_names = set(it.base_environment.getSymbols())
+        return self.run(i, "def secret = 1")
+
     def configure(self, moddir):
-        """Point the (so far unused) interpreters at a module directory."""
-        for it in self.it.values():
-            it.base_environment.put("checkerlang_module_path",
-                                    V.ValueList().addItem(V.ValueString(moddir)))
-            it.base_environment.put("loadlog", V.ValueList())
-        any_it = next(iter(self.it.values()))
-        self.base_names = set(any_it.base_environment.getSymbols())
-        for it in self.it.values():
-            it.interpret("def secret = 1", "setup")
+        """Point the (so far unused) interpreters at their module directory:
+        moddir is one path or {interpreter: path, "": path of the others}."""
+        self.moddir = moddir
+        for i in self.it:
+            got, _ = self.setup(i)
+            if got != ("val", "int", "", 1):
+                raise MachineryError(f"set-up of interpreter {i} failed: {got}")
+
+    def create(self, i):
+        """The command `new`: the host constructs interpreter i now, while the
+        others are in use, and sets it up like them.  -> outcome of the set-up call"""
+        if i in self.it:
+            raise MachineryError("interpreter constructed twice: " + i)
+        self.construct(i)
+        return self.setup(i)
+
+    def execute(self, c, src, interrupt=False):
+        """One session command -> (abstract outcome, raw identity of an error).
+        interrupt: the spec says the call does not end and the user interrupts it."""
+        if c["op"] == "new":
+            return self.create(c["i"])
+        return self.run(c["i"], src, self.caller_env(c), interrupt)
 
     def caller_env(self, c):
         """The environment argument of interpret for command c (None: none)."""
@@ -219,27 +353,45 @@ class Sessions:
             return None
         if c["id"] == "fresh":
             return get_none_environment()
+        if c["id"] in ("nested", "deep", "outer"):
+            return {"nested": self.inner, "deep": self.leaf, "outer": self.outer}[c["id"]]
         return self.kept if c["id"] == "kept" else self.child[c["i"]]
 
     def cyclic(self):
-        """Does the environment chain of some interpreter never end?"""
+        """Does the environment chain of some interpreter never end?  (Reads the
+        attribute `parent`; where there is no such attribute nothing is known
+        and the time limit of a call is the only defence.)"""
         for it in self.it.values():
             e, hops = it.environment, 0
             while e is not None:
-                e, hops = e.parent, hops + 1
-                if hops > 4 * len(self.it) + 4:
+                e, hops = getattr(e, "parent", None), hops + 1
+                if hops > 4 * len(self.interps) + 8:
                     return True
         return False
 
-    def run(self, i, src, env=None):
+    def plain(self, text):
+        """Error text without the names of the scratch directories."""
+        dirs = self.moddir.values() if isinstance(self.moddir, dict) else [self.moddir]
+        for d in sorted((x for x in dirs if x), key=len, reverse=True):
+            text = text.replace(d, "<moddir>")
+        return text
+
+    def run(self, i, src, env=None, interrupt=False):
         """-> (abstract outcome tuple, raw identity of an error)"""
         it = self.it[i]
         try:
             signal.alarm(CALL_TIMEOUT)          # a call that never returns is an outcome too
             try:
+                if interrupt:
+                    signal.setitimer(signal.ITIMER_VIRTUAL, INTERRUPT_AFTER)
                 r = it.interpret(src, "cmd") if env is None else it.interpret(src, "cmd", env)
             finally:
+                signal.setitimer(signal.ITIMER_VIRTUAL, 0)
                 signal.alarm(0)
+        except KeyboardInterrupt:
+            if not interrupt:
+                raise
+            return ("host", "KeyboardInterrupt", "", 0), ("KeyboardInterrupt", "", "")
         except CklRuntimeError as e:
             return classify_error(e), ("CklRuntimeError", repr(e.value), str(e.msg))
         except CklSyntaxError as e:
@@ -247,7 +399,8 @@ class Sessions:
         except RecursionError:
             return ("host", "RecursionError", "", 0), ("RecursionError", "", "")
         except Exception as e:  # noqa: BLE001
-            return ("host", type(e).__name__, str(e)[:80], 0), (type(e).__name__, "", str(e)[:80])
+            text = self.plain(str(e))[:80]
+            return ("host", type(e).__name__, text, 0), (type(e).__name__, "", text)
         return classify_value(r), None
 
 
@@ -279,7 +432,23 @@ def classify_value(r):
         return ("val", "fn", "", 0)
     if isinstance(r, V.ValueObject) and getattr(r, "isModule", False):
         return ("val", "mod", "", 0)
+    if isinstance(r, V.ValueObject):
+        return ("val",) + obj_kind(r)[:1] + ("", obj_kind(r)[1])
     return ("val", type(r).__name__, "", 0)
+
+
+def obj_kind(v):
+    """An object made by `def class P do def P_m = <int>; def P_get(self) ... end`
+    -> ("obj", m); any other object -> ("obj-other", 0)."""
+    try:
+        ms = [x for k, x in v.value.items() if k.endswith("_m")]
+        gs = [x for k, x in v.value.items() if k.endswith("_get")]
+        if (len(v.value) == 2 and len(ms) == 1 and len(gs) == 1 and isinstance(ms[0], V.ValueInt)
+                and isinstance(ms[0].value, int) and isinstance(gs[0], V.ValueFunc)):
+            return ("obj", ms[0].value)
+    except Exception:  # noqa: BLE001
+        pass
+    return ("obj-other", 0)
 
 
 def want_outcome(o):
@@ -302,6 +471,14 @@ def render_value(sess, i, expr, v, want_kind):
         return ("fn", 0)
     if isinstance(v, V.ValueObject) and getattr(v, "isModule", False):
         return ("mod", 0)
+    if isinstance(v, V.ValueObject):
+        kind = obj_kind(v)
+        if kind[0] == "obj":
+            # the object is usable: its method reads its member
+            o, _ = sess.run(i, f"{expr}->{expr}_get()")
+            if o != ("val", "int", "", kind[1]):
+                return ("obj-broken", 0, o)
+        return kind
     if isinstance(v, V.ValueList):
         return ("list", 0)
     return (type(v).__name__, 0)
@@ -312,30 +489,60 @@ def value_cat(name):
     return "probe" if name.endswith(("_sees", "_top")) else "value"
 
 
-def observe(sess, i, want, names_only=False):
+def scope_map(env):
+    """The private dict of an environment, when the implementation has one."""
+    m = getattr(env, "map", None)
+    return m if isinstance(m, dict) else None
+
+
+def peek(it, smap, n):
+    """The value bound to n in the session scope: from the scope map, or - when
+    the implementation keeps its scopes differently - by evaluating the name."""
+    if smap is not None and n in smap:
+        return smap[n]
+    return it.interpret(n, "obs")
+
+
+def observe(sess, i, want, names_only=False, soft=()):
     """Compare the scope of interpreter i with the predicted observation
-    `want` (STATE.obs[i]).  -> list of (category, detail)."""
-    it = sess.it[i]
+    `want` (STATE.obs[i]).  -> list of (category, detail).  soft: (i, name)
+    pairs whose appearance only drifts (see half_defined)."""
     diffs = []
     if want == []:
         want = {}
-    api = set(it.environment.map.keys())
+    if i not in sess.it:
+        # not constructed yet: it has no scope
+        if want:
+            raise MachineryError(f"the spec gives interpreter {i} a scope before it is constructed")
+        return diffs
+    it = sess.it[i]
+    smap = scope_map(it.environment)
+    api = set(smap.keys()) if smap is not None else None
     try:
         r = it.interpret("ls()", "obs")
         lang = set(x.value for x in r.value) - sess.base_names
     except Exception as e:  # noqa: BLE001
         diffs.append(("names", f"ls() failed: {type(e).__name__}"))
-        lang = api
+        lang = api if api is not None else set()
+    if api is None:
+        diffs.append(("diag:unavailable", "the session environment has no dict `map`: names are taken from "
+                                          "ls() only, values by evaluating the name"))
+        api = lang
     if lang != api:
         diffs.append(("ls-vs-api", f"ls() shows {sorted(lang ^ api)} differently from the scope map"))
     exp = set(want.keys())
     for n in sorted((lang ^ exp) & SOFT_NAMES):
-        diffs.append(("drift:loopvar", f"{i}: loop variable {n} {'kept' if n in lang else 'not kept'} "
-                                       f"after the aborted loop, spec says the opposite"))
+        diffs.append(("drift:loopvar", f"{i}: {'loop variable' if n == 'i' else 'class member'} {n} "
+                                       f"{'kept' if n in lang else 'not kept'} in the session scope after "
+                                       f"the {'aborted loop' if n == 'i' else 'class definition'}, spec says "
+                                       f"the opposite"))
     exp -= SOFT_NAMES
     # the verdict is on what the language shows (ls()); the scope map is the cross-check above
     for n in sorted(lang - exp - SOFT_NAMES):
-        diffs.append(("names", f"unexpected name {n} in the scope of {i}"))
+        if (i, n) in soft:
+            diffs.append(("drift:halfdef", f"{i}: name {n} is visible although the statement defining it failed"))
+        else:
+            diffs.append(("names", f"unexpected name {n} in the scope of {i}"))
     for n in sorted(exp - lang):
         diffs.append(("names", f"name {n} is missing from the scope of {i}"))
     if names_only:
@@ -343,7 +550,11 @@ def observe(sess, i, want, names_only=False):
     shown = {}          # module instance (spec) -> [(name, module object)]
     for n in sorted(exp & api):
         w = want[n]
-        v = it.environment.map[n]
+        try:
+            v = peek(it, smap, n)
+        except Exception as e:  # noqa: BLE001
+            diffs.append(("value", f"{i}: {n} cannot be read: {type(e).__name__}"))
+            continue
         got = render_value(sess, i, n, v, w["v"]["k"])
         if got[:2] != (w["v"]["k"], w["v"]["r"]):
             diffs.append((value_cat(n), f"{i}: {n} is {got} but should be {(w['v']['k'], w['v']['r'])}"))
@@ -379,9 +590,32 @@ def diagnostics(sess, i, key, loadcap):
     """modulestack / module cache / load counters against the spec state.
     Category loadonce: the top level of a module that is (or the spec says is)
     in the cache ran more than once - what C11 forbids; the rest is drift."""
+    if i not in sess.it:
+        return []
     it = sess.it[i]
     d = []
     base = it.base_environment
+    # private attributes of the implementation: a diagnostic whose attribute is
+    # not there (renamed, restructured) is dropped, never an error of the check
+    stack, cache, logv = (getattr(base, "modulestack", None), getattr(base, "modules", None),
+                          (scope_map(base) or {}).get("loadlog"))
+    lost = [n for n, x, t in (("modulestack", stack, list), ("modules", cache, dict),
+                              ("map['loadlog']", logv, V.ValueList)) if not isinstance(x, t)]
+    if lost:
+        d.append(("diag:unavailable", f"no {' / '.join(lost)} on the base environment: "
+                                      f"stack / cache / load-counter diagnostics dropped"))
+    if "e" in key and scope_map(sess.kept) is not None and ("ev" in sess.kept.map) != bool(key["e"]):
+        d.append(("diag:callerenv", f"the caller's environment holds {sorted(sess.kept.map)}, spec ev={key['e']}"))
+    if "ne" in key and scope_map(sess.inner) is not None and ("ev" in sess.inner.map) != bool(key["ne"]):
+        d.append(("diag:callerenv", f"the caller's inner environment holds {sorted(sess.inner.map)}, "
+                                    f"spec ev={key['ne']}"))
+    if getattr(sess.kept, "parent", None) is not None or getattr(sess.outer, "parent", None) is not None:
+        d.append(("diag:callerenv", "a root environment of the caller is still attached after the call"))
+    if hasattr(sess.inner, "parent") and (sess.inner.parent is not sess.outer or sess.leaf.parent is not sess.inner):
+        d.append(("diag:callerenv", "the caller's chain outer <- inner <- leaf was cut by the call"))
+    if lost:
+        return d
+    base = DiagView(stack, cache, logv)
     stack = list(base.modulestack)
     if stack != list(key["k"][i]):
         d.append(("diag:stack", f"{i}: modulestack {stack} but spec {key['k'][i]}"))
@@ -396,11 +630,7 @@ def diagnostics(sess, i, key, loadcap):
     wantm = key["m"][i] if key["m"][i] != [] else {}
     if loaded != sorted(wantm):
         d.append(("diag:cache", f"{i}: module cache {loaded} but spec {sorted(wantm)}"))
-    if "e" in key and ("ev" in sess.kept.map) != bool(key["e"]):
-        d.append(("diag:callerenv", f"the caller's environment holds {sorted(sess.kept.map)}, spec ev={key['e']}"))
-    if sess.kept.parent is not None:
-        d.append(("diag:callerenv", "the caller's environment is still attached after the call"))
-    log = [x.value for x in base.map["loadlog"].value]
+    log = [x.value for x in base.loadlog.value]
     wantl = key["l"][i] if key["l"][i] != [] else {}
     for m in sorted(inst):
         n = len(inst[m])
@@ -416,6 +646,13 @@ def diagnostics(sess, i, key, loadcap):
         elif min(n, loadcap) != wantl.get(m, 0):
             d.append(("diag:loads", f"{i}: top level of {m} ran {n} times, spec {wantl.get(m, 0)}"))
     return d
+
+
+class DiagView:
+    """What the diagnostics read of a base environment (checked to be there)."""
+
+    def __init__(self, modulestack, modules, loadlog):
+        self.modulestack, self.modules, self.loadlog = modulestack, modules, loadlog
 
 
 # ------------------------------------------------------------------- graph
@@ -455,6 +692,11 @@ class Graph:
             self.out[p].sort(key=lambda x: (x[0]["op"] in ENV_OPS and x[0]["id"] == "child",
                                             json.dumps(x[0], sort_keys=True)))
         self.fsdefs = res.records("FSDEF")
+        # round 3: which files cannot be read, directories of single interpreters
+        for extra in res.records("FSRAW")[:1]:
+            for f in self.fsdefs:
+                f["raw"] = extra["raw"] if extra["raw"] != [] else {}
+                f["alt"] = extra["alt"] if extra["alt"] != [] else {}
         return self
 
     def dump(self, path):
@@ -479,15 +721,24 @@ class Graph:
         return s.get(c["n"])
 
 
+def unborn(key, interps):
+    """The interpreters that do not exist yet in the state `key` (they have the
+    empty scope; `new` constructs them)."""
+    return [x for x in interps if key["s"][x] in ([], {})]
+
+
 def init_id(g, interps):
+    cands = []
     for i, k in enumerate(g.key):
-        if k["n"] == 0 and k["g"] == [] and not k.get("e") and all(
-                (k["s"][x] if k["s"][x] != [] else {}).keys() == {"secret"}
+        if k["n"] == 0 and k["g"] == [] and not k.get("e") and not k.get("ne") and all(
+                (k["s"][x] if k["s"][x] != [] else {}).keys() <= {"secret"}
                 and set(k["m"][x] if k["m"][x] != [] else {}) <= MODEL_BUNDLED      # start-up modules
                 and k["k"][x] == [] and set(k["l"][x] if k["l"][x] != [] else {}) <= MODEL_BUNDLED
                 for x in interps):
-            return i
-    raise MachineryError("initial state not exported")
+            cands.append((-len(unborn(k, interps)), i))
+    if not cands:
+        raise MachineryError("initial state not exported")
+    return min(cands)[1]      # (the state in which the most interpreters are still to be made)
 
 
 # ------------------------------------------------------------------ walker
@@ -558,7 +809,9 @@ class Walker:
         plan below every root; returns when every process has ended."""
         self.fd = os.open(self.outpath, os.O_WRONLY | os.O_APPEND | os.O_CREAT)
         gc.disable()
-        warm = Sessions(self.interps)        # constructed once; every root forks a pristine copy
+        late = unborn(self.g.key[roots[0][0]], self.interps) if roots else []
+        # constructed once; every root forks a pristine copy
+        warm = Sessions(self.interps, late=late)
         asyncs = []
         for k, (root_sid, moddir, tag) in enumerate(roots):
             def body(k=k, root_sid=root_sid, moddir=moddir, tag=tag):
@@ -613,7 +866,7 @@ class Walker:
         g = self.g
         b = g.binding(sid, c)
         src = cmd_source(c, b)
-        got, raw = sess.run(c["i"], src, sess.caller_env(c))
+        got, raw = sess.execute(c, src, o["kind"] == "interrupted")
         path2 = path + [[c, o, q, b]]
         findings = compare_outcome(cmd_label(c, b), got, raw, want_outcome(o), c, prev)
         n = 1 + self.check_state(sess, q, path2, findings)
@@ -629,21 +882,23 @@ class Walker:
         obs = g.obs.get(sid)
         if obs is None:
             raise MachineryError("no STATE record for a reached state")
-        findings += state_findings(sess, self.interps, obs, g.key[sid], self.loadcap)
-        n += sum(2 + len(obs[i]) for i in self.interps)
+        findings += state_findings(sess, self.interps, obs, g.key[sid], self.loadcap, half_defined(path))
+        n += sum(2 + len(obs[i]) for i in self.interps if i in sess.it)
         for cat, what in findings:
             self.emit({"t": "f", "cat": cat, "what": what, "obs": obs, "key": g.key[sid],
                        "loadcap": self.loadcap, "path": [[p[0], p[1], p[3]] for p in path]})
         return n
 
 
-def state_findings(sess, interps, obs, key, loadcap):
+def state_findings(sess, interps, obs, key, loadcap, soft=()):
     """Every interpreter's scope and diagnostics against the spec state."""
     findings = []
     if sess.cyclic():
         # what the language shows of it, with calls that end: a read of an
         # unknown name (the model's `read` of an undefined name) and ls()
         for i in interps:
+            if i not in sess.it:
+                continue
             got, _ = sess.run(i, "nosuch_c10")
             if got[:2] != ("err", "undef"):
                 findings.append(("outcome-cls", f"{i}: reading an unknown name: outcome {got} but the spec "
@@ -652,7 +907,7 @@ def state_findings(sess, interps, obs, key, loadcap):
         findings.append(("diag:chain", "the environment chain of an interpreter is cyclic"))
         return findings
     for i in interps:
-        findings += observe(sess, i, obs[i])
+        findings += observe(sess, i, obs[i], soft=soft)
         if key is not None:
             findings += diagnostics(sess, i, key, loadcap)
     return findings
@@ -662,7 +917,17 @@ def compare_outcome(label, got, raw, want, c, prev):
     """Outcome of one interpret call against the spec, and - implementation
     against implementation - a failing command repeated at once."""
     findings = []
-    if got != want:
+    if want[0] == "fail":
+        # a module load that fails in the host: the statement asks that it is a
+        # failure (whichever), the same when repeated (below), without residue
+        if got[0] in ("val", "hang"):
+            findings.append(("outcome-cls", f"{label}: outcome {got} but the spec predicts a failure {want[1:3]}"))
+        elif got[:2] == ("err", "circular"):
+            findings.append(("outcome", f"{label}: reported as a circular module dependency ({got[2]}), the spec "
+                                        f"predicts the failure {want[1:3]}: there is no cycle"))
+        elif got[0] == "host":
+            findings.append(("drift:hostexc", f"{label}: the failure is the host exception {got[1]}"))
+    elif got != want:
         if got[0] != want[0]:
             findings.append(("outcome-cls", f"{label}: outcome {got} but the spec predicts {want}"))
         elif got[0] == "err" and got[1] == "other":
@@ -869,6 +1134,17 @@ def check_pinned_env(run, ahead):
     return re.findall(r'op \|-> "(env\w+)", i \|-> "(\w+)", n \|-> "\w*", v \|-> 0, id \|-> "(\w+)"', res.out)
 
 
+def check_pinned_host(run, ahead):
+    """Round 3: the stack unwound for the language's error classes only - TLC
+    must find a module load that fails in the host and poisons its repeat."""
+    res = ahead.take("Session_pinnedhost")
+    run.add_tlc(res, "Session with UnwindsFor=UnwindsLang (stack unwound for language errors only): "
+                     "counterexample expected")
+    if res.ok or "Invariant FailIsIdempotent is violated" not in res.out:
+        raise MachineryError("Session_pinnedhost: TLC did not find the expected counterexample")
+    return re.findall(r'ReqStart\(\[op \|-> "require", i \|-> "i1", n \|-> "", v \|-> 0, id \|-> "(\w+)"', res.out)
+
+
 def run_walk_job(job, d):
     """The walk runs in a fresh, small process: forking it is cheap."""
     import subprocess
@@ -956,9 +1232,9 @@ def walk(run, g, interps, roots, fsdefs, mode, verdict, prefix, loadcap=1, maxle
             jroots = []
             for (sid, fi, tag) in batch:
                 if fi not in dirs:
-                    dirs[fi] = os.path.join(d, "fs%d" % fi)
-                    os.mkdir(dirs[fi])
-                    materialise(fsdefs[fi], dirs[fi])
+                    top = os.path.join(d, "fs%d" % fi)
+                    os.mkdir(top)
+                    dirs[fi] = materialise(fsdefs[fi], top)
                 jroots.append([sid if remap is None else remap[sid], dirs[fi], tag])
             job = {"graph": os.path.join(d, "graph.json"), "interps": interps, "roots": jroots,
                    "mode": mode, "maxlen": maxlen, "loadcap": loadcap,
@@ -1003,6 +1279,10 @@ def run(run):
         ahead.graph("Session_two")
         ahead.graph("Session_env1")
         ahead.graph("Session_env2")
+        ahead.start("Session_pinnedhost", **PINNED_KW)
+        ahead.graph("Session_fails")
+        ahead.graph("Session_dirs")
+        ahead.graph("Session_nest")
         run_checks(run, quick, rng, info, ahead)
     finally:
         ahead.close()
@@ -1014,6 +1294,8 @@ def run_checks(run, quick, rng, info, ahead):
     info["pinned_counterexample"] = "require %s twice" % (reqs[0] if reqs else "?")
     envs = check_pinned_env(run, ahead)
     info["pinned_env_counterexample"] = " ; ".join(f"{i}: {op} ({e} environment)" for op, i, e in envs[:4])
+    reqs = check_pinned_host(run, ahead)
+    info["pinned_host_counterexample"] = "require %s twice" % (reqs[0] if reqs else "?")
 
     def go(cfg, interps, label, *modes):
         """modes: (name, mode, params)"""
@@ -1045,6 +1327,28 @@ def run_checks(run, quick, rng, info, ahead):
        *env1)
     go("Session_env2", ["i1", "i2"], "Session, two interpreters handed the same caller environment "
        "(repaired behaviour)", *env2)
+    # round 3
+    # (the cover walk reaches every state along ONE path; what these graphs are
+    # about - state of the implementation the model does not have: a cache
+    # shared by the process, an interpreter made after another was used - shows
+    # along particular orders, and the graphs are small: every short history
+    # is walked in the quick tier too)
+    fails = [("fails_cover", "cover", {}), ("fails_histories_le2", "depth", {"maxlen": 2})]
+    dirs = [("dirs_cover", "cover", {}), ("dirs_histories_le4", "depth", {"maxlen": 4})]
+    nest = [("nest_cover", "cover", {}), ("nest_histories_le2", "depth", {"maxlen": 2})]
+    if not quick:
+        fails += [("fails_histories_le4", "depth", {"maxlen": 4}),
+                  ("fails_walks_le30", "walks", {"nwalks": 500, "maxlen": 30})]
+        dirs += [("dirs_histories_le6", "depth", {"maxlen": 6}),
+                 ("dirs_walks_le30", "walks", {"nwalks": 500, "maxlen": 30})]
+        nest += [("nest_histories_le3", "depth", {"maxlen": 3}),
+                 ("nest_walks_le30", "walks", {"nwalks": 1000, "maxlen": 30})]
+    go("Session_fails", ["i1"], "Session, one interpreter: defining statements that fail, module loads that fail "
+       "in the host (repaired behaviour)", *fails)
+    go("Session_dirs", ["i1", "i2"], "Session, two interpreters with different module directories, the second "
+       "constructed during the history (repaired behaviour)", *dirs)
+    go("Session_nest", ["i1", "i2"], "Session, two interpreters handed caller environments that have a parent "
+       "of their own (repaired behaviour)", *nest)
     s0 = init_id(g1, ["i1"])
     run.sample({"EDGE": {"from": g1.key[s0], "cmd": g1.out[s0][0][0], "outcome": g1.out[s0][0][1]}})
     run.sample({"STATE.obs": g1.obs[g1.out[s0][-1][2]]})
@@ -1070,6 +1374,14 @@ def run_checks(run, quick, rng, info, ahead):
         "same error = same exception class, error value and message",
         "module-object member sets, modulestack, module cache and load counters are diagnostics (drift) "
         "here (C11 judges them); the verdict is on call outcomes and on the visible names and their values",
+        "a module load that fails in the host (file not UTF-8, directory in place of the file, host stack "
+        "exhausted) may fail with any exception (which one is C13's concern: drift hostexc); compared are the "
+        "repeat, the absence of a bogus circular-dependency report and the state afterwards",
+        "a defining statement that fails defines nothing: that an earlier definition of the name keeps its value "
+        "is compared (value); a name that becomes visible although its defining statement failed only drifts "
+        "(halfdef; state at the point of failure, DESIGN 5.3)",
+        "whether a caller's environment is still attached after the call is read from the private attribute "
+        "`parent` (drift callerenv); the verdict comes from the outcomes of the later calls that use the chain",
     ]
 
 
@@ -1078,18 +1390,19 @@ def replay_history(run, case, verdict_cats, prefix):
     interps = case["interps"]
     d = tempfile.mkdtemp(prefix="c10r-")
     try:
-        materialise(case["fs"], d)
-        sess = Sessions(interps, d)
+        late = sorted({p[0]["i"] for p in case["path"] if p[0]["op"] == "new"})
+        sess = Sessions(interps, materialise(case["fs"], d), late=late)
         prev = None
         for k, (c, o, b) in enumerate(case["path"]):
             src = cmd_source(c, b)
-            got, raw = sess.run(c["i"], src, sess.caller_env(c))
+            got, raw = sess.execute(c, src, o["kind"] == "interrupted")
             want = want_outcome(o)
             last = k == len(case["path"]) - 1
             finds = compare_outcome(cmd_label(c, b), got, raw, want, c, prev)
             prev = (c, raw)
             if last and case.get("obs") is not None:
-                finds += state_findings(sess, interps, case["obs"], case.get("key"), case.get("loadcap", 1))
+                finds += state_findings(sess, interps, case["obs"], case.get("key"), case.get("loadcap", 1),
+                                        half_defined(case["path"]))
             for cat, what in finds:
                 if cat in verdict_cats:
                     run.violation(f"{prefix}:replay:{cat}:{what}", f"{cat}: {what}", case)
